@@ -74,8 +74,10 @@ Definition mon_input_pop (ins : list N) : bool :=
       if pending =? 0 then
         (class =? 0) && (has =? 0) && (adelta =? 0) && (n0 =? 0) && (nother =? 0) && (shares =? 0) && (unshares =? 0)
       else if inrange =? 0 then
-        (* a clean panic before anything is touched *)
-        (class =? 2) && (adelta =? 0) && (n0 =? 0) && (nother =? 0) && (shares =? 0) && (unshares =? 0)
+        (* a clean panic, or a return without an event, before anything is touched (C07: "a normal result, an error or a clean
+           panic"; an earlier version demanded the panic, which is what input.rs does, and would have flagged a rewrite that
+           ignores the bogus id and returns None) *)
+        ((class =? 2) || ((class =? 0) && (has =? 0))) && (adelta =? 0) && (n0 =? 0) && (nother =? 0) && (shares =? 0) && (unshares =? 0)
       else
         (class =? 0) && (has =? 1) && (adelta =? 1) && (head =? uid) && (dlen =? 8) && (dw =? 1) && (disbuf =? 1)
         && (nother =? 0) && (n0 <=? 1) && implb (must =? 1) (n0 =? 1) && (shares =? 1) && (unshares =? 1)
